@@ -306,12 +306,37 @@ def h_generic(name):
     return h
 
 
+def rank_of(x):
+    """number of axes of an array term when its construction shows it (reshape / reductions of one), else None"""
+    a = x.single_atom() if isinstance(x, Poly) else None
+    if a is None or a[0] != 'app':
+        return None
+    if a[1] == 'm:reshape':
+        dims = a[2][1:]
+        if len(dims) == 1 and isinstance(dims[0], Tup):
+            return len(dims[0])
+        return len(dims) if all(isinstance(d, Poly) for d in dims) else None
+    if a[1] in ('sum', 'amax', 'amin', 'any', 'all', 'mean') and len(a[2]) == 2 and isinstance(a[2][1], Tup):
+        r = rank_of(a[2][0])
+        return r - 1 if r else None
+    return None
+
+
+def norm_axis(x, ax):
+    """a negative axis is counted from the front when the rank of x is known"""
+    if isinstance(ax, Poly) and ax.const_value() is not None and ax.const_value() < 0:
+        r = rank_of(P(x))
+        if r is not None:
+            return Poly.const(ax.const_value() + r)
+    return ax
+
+
 def h_sum(ip, st, args, kw, node):
     x = args[0]
-    extra = {}
+    extra = {k: v for k, v in kw.items() if k != 'axis'}
     ax = kw.get('axis', args[1] if len(args) > 1 else None)
-    if ax is not None:
-        extra['axis'] = ax
+    if ax is not None and ax != NONE:
+        extra['axis'] = norm_axis(x, ax)
     return app('sum', P(x), **extra)
 
 
